@@ -21,23 +21,16 @@ Import ListNotations.
 (* ------------------------------------------------------------------------------------ *)
 (** * RowValidator (INSERT ... VALUES) *)
 
-(** Phase 1 walks the columns [0 .. ncols) in order and pushes the value of every column that
-    [pk_indices.contains(&col_idx)] -- so the extracted key lists the key columns in COLUMN
-    order, not in the constraint's declaration order (which is what the hash maps use). *)
-Definition cols_in_column_order (ncols : nat) (cols : list nat) : list nat :=
-  filter (fun c => existsb (Nat.eqb c) cols) (seq 0 ncols).
+(** Phase 1 walks the columns to check NOT NULL and then builds the PRIMARY KEY / UNIQUE probe
+    keys in the constraint's DECLARATION order -- the order the hash maps are keyed in
+    (get_primary_key_indices / get_unique_constraint_indices). *)
+Definition rv_key (s : schema) (cols : list nat) (r : row) : key := proj cols r.
 
-Definition rv_key (s : schema) (cols : list nat) (r : row) : key :=
-  proj (cols_in_column_order (s_ncols s) cols) r.
-
-(** Phase 5, insert/constraints.rs enforce_unique_indexes (and update/constraints.rs
-    validate_unique_indexes): the probe key is built from the row's raw values
-    ([SqlValue::Integer]) while the index data is keyed by normalised values
-    ([SqlValue::Double], see UserIndex.v): [BTreeMap::contains_key] compares with [Ord], under
-    which an Integer never equals a Double, so for numeric columns the probe never hits.
-    (The storage layer's own check, [uidx_unique_violation], normalises and does hit; it runs
-    on the INSERT paths only.) *)
-Definition exec_unique_index_probe (us : list uindex) (r : row) : bool := false.
+(** Phase 5, insert/constraints.rs enforce_unique_indexes: for every UNIQUE index of the table,
+    a NULL-free key that [IndexData::contains_key] finds is a violation.  [contains_key]
+    normalises its probe (numeric -> Double) like the index keys, so this is the same test as the
+    storage layer's check_unique_constraints_for_insert ([uidx_unique_violation]). *)
+Definition exec_unique_index_probe (us : list uindex) (r : row) : bool := uidx_unique_violation us r.
 
 Record vres := { v_pk : option key; v_uq : list (option key) }.
 
@@ -98,14 +91,14 @@ Fixpoint rv_validate_all (t : table) (bpk : list key) (buq : list (list key)) (r
 (* ------------------------------------------------------------------------------------ *)
 (** * insert/constraints.rs (bulk transfer) *)
 
-(** enforce_primary_key_constraint; true = accepted.  Note the append-mode shortcut. *)
+(** enforce_primary_key_constraint; true = accepted (the map is always consulted: the former
+    append-mode shortcut is gone) *)
 Definition bulk_pk_ok (t : table) (seen : list key) (r : row) : bool :=
   match s_pk (t_sch t) with
   | None => true
   | Some cols =>
       let k := proj cols r in
       if key_mem k seen then false
-      else if tr_mode (t_trk t) then true
       else negb (match t_pkidx t with Some m => am_mem k m | None => false end)
   end.
 
@@ -142,6 +135,14 @@ Fixpoint upd_unique_ok (uniqs : list (list nat)) (uq : list (amap nat)) (old new
   | _, _ => true
   end.
 
+(** validate_unique_indexes: for every UNIQUE index, a NULL-free new key that differs from the
+    row's old key and is present in the index data (as it is before the statement) is a violation *)
+Definition upd_uidx_ok (us : list uindex) (old new : row) : bool :=
+  forallb (fun u =>
+             negb (ui_unique u)
+             || (let kn := ui_key (ui_cols u) new in
+                 has_null kn || key_eqb kn (ui_key (ui_cols u) old) || negb (am_mem kn (ui_data u)))) us.
+
 (** validate_row + validate_unique_indexes; true = accepted *)
 Definition upd_validate (t : table) (old new : row) : bool :=
   let s := t_sch t in
@@ -149,4 +150,4 @@ Definition upd_validate (t : table) (old new : row) : bool :=
   && upd_pk_ok t old new
   && upd_unique_ok (s_uniqs s) (t_uqidx t) old new
   && checks_ok (s_checks_enf s) new
-  && negb (exec_unique_index_probe (t_uidx t) new).
+  && upd_uidx_ok (t_uidx t) old new.
